@@ -162,6 +162,41 @@ static std::string check_forms(int type, Native& nat, const std::vector<std::arr
 	return "";
 }
 
+// ---- injected generator states ---------------------------------------------------------------------------
+// A program starts wherever the previous one left the Blake2Generator stream, so "for every key" contains "from every generator state
+// (64 buffered bytes, read position)". Rare DRAWS - a 32-bit draw that is zero, a power of two, all ones; byte draws at their extremes -
+// cannot be reached through keys (seeded change agent7_C09: powers of two accepted as IMUL_RCP divisors, 1.6e-6 per key), but they can be
+// placed in the buffered bytes: the repository's generator and the model's start from the SAME injected state and must produce the same
+// well-formed program. Families: every 4-byte window a power of two / zero / all ones / a boundary word, mixed with pseudo-random bytes.
+static void make_state(uint64_t id, uint8_t d[64]) {
+	uint64_t z = id * 0x9E3779B97F4A7C15ull + 0x1234567; auto nx = [&]() { z ^= z >> 12; z ^= z << 25; z ^= z >> 27; return z * 0x2545F4914F6CDD1Dull; };
+	static const uint32_t BW[] = { 0, 1, 2, 3, 4, 0x80000000u, 0xFFFFFFFFu, 0x7FFFFFFFu, 0x00010000u, 63, 64, 255, 256 };
+	int fam = (int)(id % 5); unsigned phase = (unsigned)((id / 5) % 4);
+	for (int i = 0; i < 64; ++i) d[i] = (uint8_t)(nx() >> 56);
+	switch (fam) {
+	case 0: for (int i = 0; i < 64; ++i) d[i] = ((unsigned)i % 4 == phase) ? (uint8_t)(1u << (nx() >> 61)) : 0; break;                                  // every window of 4 bytes is a power of two
+	case 1: for (int i = 0; i < 64; ++i) if ((nx() >> 60) != 0) d[i] = 0; break;                                                                          // mostly zero
+	case 2: for (int i = 0; i < 64; ++i) if ((nx() >> 60) != 0) d[i] = 0xFF; break;                                                                       // mostly ones
+	case 3: for (int w = 0; w * 4 + (int)phase + 4 <= 64; ++w) if (nx() >> 63) { uint32_t v = BW[(nx() >> 32) % (sizeof BW / sizeof BW[0])]; memcpy(d + w * 4 + phase, &v, 4); } break;   // boundary words at one alignment among random bytes
+	default: { int from = (int)((nx() >> 58) & 63); for (int i = from; i < 64; ++i) d[i] = ((unsigned)i % 4 == phase) ? (uint8_t)(1u << (nx() >> 61)) : 0; } break;   // random prefix, then power-of-two windows
+	}
+}
+static std::string check_state(uint64_t id, vf::Result& R, spec::GenStats& gs) {
+	uint8_t d[64]; make_state(id, d); size_t pos = (size_t)((id / 20) % 3 == 0 ? (id / 60) % 64 : 0);
+	randomx::Blake2Generator gen("", 0); memcpy(gen.data, d, 64); gen.dataIndex = pos;
+	spec::BlakeGenerator mg("", 0); memcpy(mg.s_, d, 64); mg.pos_ = pos;
+	spec::Params P = spec::Params::production();
+	randomx::SuperscalarProgram prog; prog.setSize(0); randomx::generateSuperscalar(prog, gen);
+	R.n["injected_states"]++;
+	std::string w = wellformed(prog); if (!w.empty()) return w;
+	spec::SsProgram sp = spec::generate_superscalar(mg, P, &gs);
+	if (sp.ins.size() != prog.getSize()) return "size " + std::to_string(prog.getSize()) + " != specification generator " + std::to_string(sp.ins.size());
+	for (uint32_t j = 0; j < prog.getSize(); ++j) { auto& a = prog(j); auto& b = sp.ins[j]; if (a.opcode != b.opcode || a.dst != b.dst || a.src != b.src || a.mod != b.mod || a.getImm32() != b.imm32) return "instruction " + std::to_string(j) + " differs from the specification generator"; }
+	if (prog.getAddressRegister() != sp.addr_reg) return "address register differs from the specification generator";
+	if (memcmp(gen.data, mg.s_, 64) || gen.dataIndex != mg.pos_) return "generator state after the program differs from the specification generator (different number of draws)";
+	return "";
+}
+
 int main(int argc, char** argv) {
 	vf::Args args = vf::parse_args(argc, argv, "C09");
 	const bool th = args.thorough();
@@ -169,6 +204,7 @@ int main(int argc, char** argv) {
 	auto rv = reg_vectors(th);
 	if (!args.replay.empty()) {
 		vf::Json r = vf::Json::load(args.replay);
+		if (r.has("state_id")) { vf::Result R; spec::GenStats gs; std::string d = check_state((uint64_t)r.at("state_id").num(), R, gs); printf("replay: %s\n", d.empty() ? "conformant" : d.c_str()); return d.empty() ? 0 : 1; }
 		if (r.has("form_type")) { vf::Result R; Native nat; std::string d = check_forms((int)r.at("form_type").num(), nat, rv, R, th); printf("replay: %s\n", d.empty() ? "conformant" : d.c_str()); return d.empty() ? 0 : 1; }
 		auto k = vf::unhex(r.at("rxkey").s); vf::Result R; spec::GenStats gs; Native nat;
 		std::string d = check_key(std::string((const char*)k.data(), k.size()), nat, rv, R, gs, true);
@@ -186,6 +222,11 @@ int main(int argc, char** argv) {
 			std::string d = check_forms(shard, nat, rv, R, th);
 			if (!d.empty()) { vf::Violation v; v.key = "c09:form"; v.what = d; v.replay = vf::Json::obj().set("form_type", shard); R.viol.push_back(v); }
 		}
+		{ const uint64_t NS = th ? 2000000 : 200000;
+		  for (uint64_t id = (uint64_t)shard; id < NS && R.viol.size() < 3; id += nsh) {
+			std::string d = check_state(id, R, gs);
+			if (!d.empty()) { vf::Violation v; v.key = "c09:state"; v.what = "generator state #" + std::to_string(id) + " (buffered bytes with rare draws): " + d; v.replay = vf::Json::obj().set("state_id", (unsigned long long)id); R.viol.push_back(v); }
+		  } }
 		for (size_t i = shard; i < ids.size(); i += nsh) {
 			if (args.expired()) { R.incomplete = true; break; }
 			std::string key = key_of(ids[i], shapes);
@@ -206,7 +247,7 @@ int main(int argc, char** argv) {
 	for (const char* p : { "path_thrown_away", "path_stall_cycles", "path_r5_source_rule", "path_mul_port_saturation", "path_size_cap", "path_chained_mul", "path_group_aborted", "path_port_map_exhausted" }) if (total.n[p] == 0) never.push(p);
 	ev.coverage.set("evaluations", (unsigned long long)(total.n["programs"] + total.n["executions"] + total.n["form_executions"])).set("distinct_nontrivial", (unsigned long long)total.n["programs"])
 		.set("exhaustive", !total.incomplete).set("generator_paths_never_reached", never)
-		.set("rule", "keys: the key-shape alphabet, the empty key, all 256 one-byte keys, all 65536 two-byte keys and (thorough) 262144 three-byte keys; for each of the 8 programs of a key: generation terminates, Table 6.1.1 well-formedness checked on the repository's program object, every field and the address register equal the specification generator; executeSuperscalar == x86 code generated by generateSuperscalarHash (program under test first, seven empty programs, all-zero cache image so the interleaved XORs are identities, one reciprocal table per key filled across its 8 programs as initCache does, entered through a trampoline that loads r8-r15) == model executor on the register-vector alphabet (native execution for the shapes, the one-byte keys and every 17th / 8th two-byte key). instruction forms: every type x dst x src x shift x a 40-value imm32 boundary set (8-/16-/32-bit edges), reciprocal indices below and above 255, in synthetic programs: interpreter == native == model. distinct = programs");
+		.set("rule", "keys: the key-shape alphabet, the empty key, all 256 one-byte keys, all 65536 two-byte keys and (thorough) 262144 three-byte keys; for each of the 8 programs of a key: generation terminates, Table 6.1.1 well-formedness checked on the repository's program object, every field and the address register equal the specification generator; executeSuperscalar == x86 code generated by generateSuperscalarHash (program under test first, seven empty programs, all-zero cache image so the interleaved XORs are identities, one reciprocal table per key filled across its 8 programs as initCache does, entered through a trampoline that loads r8-r15) == model executor on the register-vector alphabet (native execution for the shapes, the one-byte keys and every 17th / 8th two-byte key). injected generator states: 200000 (thorough 2000000) states (64 buffered bytes + read position) in which 32-bit draws are zero / powers of two / all ones / boundary words and byte draws are extreme: program from the repository's generator == program from the model generator from the same state, well-formed, same number of draws; instruction forms: every type x dst x src x shift x a 40-value imm32 boundary set (8-/16-/32-bit edges), reciprocal indices below and above 255, in synthetic programs: interpreter == native == model. distinct = programs");
 	ev.assumptions = { "chapter 6 under-specifies the order of random-number consumption; the model generator is a second implementation frozen in /verif (it detects changes, it cannot certify the generator against prose)", "keys reach the generator only through Blake2b, so the key set is a large deterministic population, not a partition proof" };
 	return vf::finish(args, total, ev, true, true);
 }
